@@ -54,6 +54,8 @@ def run(ctx, FS):
 UNCHECKED = {
     "hash::inner::FuzzyHash::from_raw": {
         "generate::inner::Generator::finalize_with_options": "parts come from the generator (R-15.3: always valid)",
+        "hash::inner::FuzzyHash::try_from": "binary parser; its strict gates on the decoded parts are R-15.1",
+        "hash::inner::FuzzyHash::from_str_bytes": "text parser; its strict gates on the decoded parts are R-15.1",
     },
     "length::FuzzyHashLengthEncoding::from_raw": {
         "hash::inner::FuzzyHash::try_from": "binary parser; its strict gate on the decoded value is R-15.1",
@@ -203,6 +205,12 @@ def text_gates(ctx, r, F, strict):
 
 
 def binary_gates(ctx, r, F, strict):
+    RB = layout.binary_reader_evaluated(F)
+    if RB is not None:
+        ctx.instance(r, RB["evaluations"])
+        ctx.ob(r, ("TryFrom<&[u8; N]>", "strict-gates" if strict else "lenient-has-no-gate"), not RB["bad"], "; ".join(RB["bad"][:3]), cfg=F.key,
+               where=RB["body"].where(), detail={"evaluations": RB["evaluations"], "engine": "evaluation"})
+        return
     arr, slc = layout.binary_reader(F)
     ctx.instance(r)
     if arr is None:
